@@ -224,13 +224,13 @@ func (s *c11sDiskSM) Close() error {
 // system); the callbacks are irrelevant to the threading contract.
 type c11sNode struct{ stopc chan struct{} }
 
-func (n *c11sNode) StepReady()                                              {}
-func (n *c11sNode) RestoreRemotes(pb.Snapshot) error                        { return nil }
-func (n *c11sNode) ApplyUpdate(pb.Entry, sm.Result, bool, bool, bool)       {}
-func (n *c11sNode) ApplyConfigChange(pb.ConfigChange, uint64, bool) error   { return nil }
-func (n *c11sNode) ReplicaID() uint64                                       { return 1 }
-func (n *c11sNode) ShardID() uint64                                         { return 1 }
-func (n *c11sNode) ShouldStop() <-chan struct{}                             { return n.stopc }
+func (n *c11sNode) StepReady()                                            {}
+func (n *c11sNode) RestoreRemotes(pb.Snapshot) error                      { return nil }
+func (n *c11sNode) ApplyUpdate(pb.Entry, sm.Result, bool, bool, bool)     {}
+func (n *c11sNode) ApplyConfigChange(pb.ConfigChange, uint64, bool) error { return nil }
+func (n *c11sNode) ReplicaID() uint64                                     { return 1 }
+func (n *c11sNode) ShardID() uint64                                       { return 1 }
+func (n *c11sNode) ShouldStop() <-chan struct{}                           { return n.stopc }
 
 // c11sSnapshotter stands in for the root package's snapshotter: it calls the
 // ISavable / IStreamable / IRecoverable it is handed exactly once, like the
